@@ -21,6 +21,14 @@
  *   input line : hl0 hfill bg nlv lv_0 .. lv_{nlv-1} (idx mask)*    (nlv = sizeof(cd->mob_alloc_lv))
  *   output line: rc ma_len ma[0..N-1] (idx newmask)*
  *
+ * Mode "hist": histories of gsm48_decode_sysinfo4 / gsm48_decode_sysinfo1 (REAL, verbatim texts) on ONE struct gsm48_sysinfo in an
+ *   exact-size heap block whose member behind si4_msg (si5_msg) is ASan-poisoned, so a read of si4_msg[23] by the re-decode is a report.
+ *   STUBBED for gsm48_decode_sysinfo1: decode_freq_list (installs the given cell allocation: FREQ_TYPE_SERV replaced, other bits kept),
+ *   gsm48_decode_si1_rest (no-op).  The SI1 message is 23 zero octets; every message is an exact-size heap block.
+ *   input line : pos hl0 hfill bg bfill nA A_0 .. nB B_0 .. (idx mask)*    SI4 messages A, B (nB = 0: none), SI1 after the first pos of
+ *                them; the table is the one AFTER SI1, before SI1 every entry has bit 0 cleared; si4_msg starts as 23 x bfill
+ *   output line: rc_A [rc_B] si1 si4 chan_nr h tsc maio hsn arfcn hopp_len hopping[0..N-1] si4_msg[0..22] (idx newmask)*
+ *
  * Mode "si4":
  * input line : si1 hl0 hfill bg npay pay_0 .. pay_{npay-1} (idx mask)*      (idx strictly ascending)
  * output line: rc rest_off rest_len chan_nr h tsc maio hsn arfcn hopp_len hopping[0..N-1] (idx newmask)*
@@ -60,6 +68,16 @@ static int gsm48_decode_si4_rest(struct gsm48_sysinfo *s, const uint8_t *si, uin
 	rest_len = len;
 	return 0;
 }
+/* SI1: what decode_freq_list leaves = the given cell allocation in the frqt bit, every other bit as it was */
+static const uint8_t *hist_ca;
+static int decode_freq_list(struct gsm_sysinfo_freq *f, const uint8_t *cd, uint8_t len, uint8_t mask, uint8_t frqt)
+{
+	int i;
+	(void)cd; (void)len; (void)mask;
+	for (i = 0; i < 1024; i++) f[i].mask = (f[i].mask & ~frqt) | (hist_ca && hist_ca[i] ? frqt : 0);
+	return 0;
+}
+static int gsm48_decode_si1_rest(struct gsm48_sysinfo *s, const uint8_t *si, uint8_t len) { (void)s; (void)si; (void)len; return 0; }
 #ifdef C20_STUB_RACH
 static int gsm48_decode_rach_ctl_param(struct gsm48_sysinfo *s, const struct gsm48_rach_control *rc) { (void)s; (void)rc; return 0; }
 #endif
@@ -73,6 +91,68 @@ static int gsm48_decode_rach_ctl_param(struct gsm48_sysinfo *s, const struct gsm
 
 #define MAXTOK 4096
 static long tok[MAXTOK];
+
+#if defined(__SANITIZE_ADDRESS__)
+#include <sanitizer/asan_interface.h>
+#else
+#define ASAN_POISON_MEMORY_REGION(a, n) ((void)(a), (void)(n))
+#endif
+#define SI4_MSG_SIZE ((int)sizeof(((struct gsm48_sysinfo *)0)->si4_msg))
+
+static int run_hist(int n, FILE *out)
+{
+	long pos, hl0, hfill, bg, bfill, nA, nB; int i, k, np, at;
+	if (n < 7) return -1;
+	pos = tok[0]; hl0 = tok[1]; hfill = tok[2]; bg = tok[3]; bfill = tok[4]; nA = tok[5];
+	if (pos < 0 || pos > 2 || hl0 < 0 || hl0 > 255 || bg < 0 || bg > 255 || bfill < 0 || bfill > 255 || hfill < 0 || hfill > 65535) return -1;
+	if (nA < HDR || nA >= n - 6) return -1;
+	nB = tok[6 + nA];
+	if (nB < 0 || nB > n - 7 - nA || (nB != 0 && nB < HDR) || (pos == 2 && nB == 0)) return -1;
+	for (i = 0; i < nA; i++) if (tok[6 + i] < 0 || tok[6 + i] > 255) return -1;
+	for (i = 0; i < nB; i++) if (tok[7 + nA + i] < 0 || tok[7 + nA + i] > 255) return -1;
+	at = 7 + nA + nB;
+	np = n - at;
+	if (np % 2) return -1;
+	{ long prev = -1; for (i = 0; i < np; i += 2) { long idx = tok[at + i], m = tok[at + i + 1];
+		if (idx <= prev || idx >= FREQ_SIZE || m < 0 || m > 255) return -1; prev = idx; } }
+
+	struct gsm48_sysinfo *s = malloc(sizeof(*s));
+	memset(s, 0, sizeof(*s));
+	uint8_t *after = malloc(FREQ_SIZE), *ca = malloc(FREQ_SIZE);
+	for (i = 0; i < FREQ_SIZE; i++) after[i] = bg;
+	for (i = 0; i < np; i += 2) after[tok[at + i]] = tok[at + i + 1];
+	for (i = 0; i < FREQ_SIZE; i++) { ca[i] = after[i] & FREQ_TYPE_SERV; s->freq[i].mask = after[i] & ~FREQ_TYPE_SERV; }
+	hist_ca = ca;
+	for (k = 0; k < HOPPING_SIZE; k++) s->hopping[k] = (hfill + k) % 65536;
+	s->hopp_len = hl0;
+	s->chan_nr = 201; s->h = 202; s->tsc = 203; s->maio = 204; s->hsn = 205; s->arfcn = 60001;
+	memset(s->si4_msg, bfill, sizeof(s->si4_msg));
+	/* the member behind si4_msg is not used by SI1 / SI4: a redzone directly behind si4_msg[22] */
+	ASAN_POISON_MEMORY_REGION(s->si5_msg, sizeof(s->si5_msg));
+
+	uint8_t *mA = malloc(nA), *mB = nB ? malloc(nB) : NULL;
+	int l1 = (int)sizeof(struct gsm48_system_information_type_1) + 1;
+	uint8_t *m1 = malloc(l1);
+	memset(m1, 0, l1);
+	for (i = 0; i < nA; i++) mA[i] = tok[6 + i];
+	for (i = 0; i < nB; i++) mB[i] = tok[7 + nA + i];
+	int rcA, rcB = 0;
+	rest_base = mA + HDR;
+	if (pos == 0) gsm48_decode_sysinfo1(s, (const struct gsm48_system_information_type_1 *)m1, l1);
+	rcA = gsm48_decode_sysinfo4(s, (const struct gsm48_system_information_type_4 *)mA, (int)nA);
+	if (pos == 1) gsm48_decode_sysinfo1(s, (const struct gsm48_system_information_type_1 *)m1, l1);
+	if (nB) rcB = gsm48_decode_sysinfo4(s, (const struct gsm48_system_information_type_4 *)mB, (int)nB);
+	if (pos == 2) gsm48_decode_sysinfo1(s, (const struct gsm48_system_information_type_1 *)m1, l1);
+
+	fprintf(out, "%d", rcA);
+	if (nB) fprintf(out, " %d", rcB);
+	fprintf(out, " %d %d %d %d %d %d %d %d %d", s->si1, s->si4, s->chan_nr, s->h, s->tsc, s->maio, s->hsn, s->arfcn, s->hopp_len);
+	for (k = 0; k < HOPPING_SIZE; k++) fprintf(out, " %d", s->hopping[k]);
+	for (k = 0; k < SI4_MSG_SIZE; k++) fprintf(out, " %d", s->si4_msg[k]);
+	for (i = 0; i < FREQ_SIZE; i++) if (s->freq[i].mask != after[i]) fprintf(out, " %d %d", i, s->freq[i].mask);
+	fprintf(out, "\n");
+	return 0;
+}
 
 #ifdef C20_WITH_RENDER
 #include <osmocom/gsm/gsm_utils.h>
@@ -187,17 +267,18 @@ int main(int argc, char **argv)
 {
 	static char line[1 << 16];
 	if (argc > 1 && !strcmp(argv[1], "const")) {
-		printf("%d %d %d %d %d %d %d\n", (int)EIO, (int)GSM48_IE_CBCH_CHAN_DESC, (int)GSM48_IE_CBCH_MOB_AL, HDR,
+		printf("%d %d %d %d %d %d %d %d\n", (int)EIO, (int)GSM48_IE_CBCH_CHAN_DESC, (int)GSM48_IE_CBCH_MOB_AL, HDR,
 		       (int)sizeof(struct gsm48_chan_desc),
 #ifdef C20_WITH_RENDER
 		       LV_SIZE,			/* sizeof(cd->mob_alloc_lv) of the real struct gsm48_rr_cd, as compiled */
 #else
 		       (int)(C20_MOB_ALLOC_LV_SIZE),	/* the bound as written in gsm48_rr.h */
 #endif
-		       (int)GSM48_RR_CAUSE_NO_CELL_ALLOC_A);
+		       (int)GSM48_RR_CAUSE_NO_CELL_ALLOC_A, SI4_MSG_SIZE);
 		return 0;
 	}
 	int render = argc > 1 && !strcmp(argv[1], "render");
+	int hist = argc > 1 && !strcmp(argv[1], "hist");
 	long caseno = 0;
 	while (fgets(line, sizeof(line), stdin)) {
 		int n = parse(line);
@@ -212,7 +293,7 @@ int main(int argc, char **argv)
 			dup2(pe[1], 2);
 			FILE *out = fdopen(po[1], "w");
 			alarm(20);
-			if (n < 0 || (render ? run_render(n, out) : run_case(n, out)) < 0) fprintf(out, "-999\n");
+			if (n < 0 || (hist ? run_hist(n, out) : render ? run_render(n, out) : run_case(n, out)) < 0) fprintf(out, "-999\n");
 			fflush(out);
 			_exit(0);
 		}
